@@ -139,7 +139,27 @@ def unknownLeft (s : St) (isLeft : Bool) (nd : Nat) : Bool := isLeft && !s.used 
 /-- the stabilisation routine `stabilize(lrs)` dispatches on the status -/
 def stabSide (a : Anchor) : Bool := decide (a.st = 1)
 
-def step (s : St) : Ev → Option St
+/-- Tag given to a link that is (re-)initialised outside a CAS: by `alloc_node` (both links of the
+    recycled node) and by the inward-link store of `push_left/right`.
+    `fx = false` — the pinned tree: the tag restarts at 0.
+    `fx = true` — the repaired code (follow-up C17s, `fix:` commit on deque.hpp): the tag found in
+    the node is kept and incremented (`get_next_tag()`, the idiom of `boost::lockfree::queue`'s
+    node constructor), so the tag of a link word grows with every write for the whole life of the
+    deque, across recycling. -/
+def newTag (fx : Bool) (old : Link) : Nat := if fx then old.tag + 1 else 0
+
+/-- What a load from the `left` word of a node that is in the freelist may return.  The pinned
+    tree's model (`fx = false`) assumes nothing.  The repaired model (`fx = true`) uses that
+    `freelist_stack::deallocate` writes its `next` pointer with `tagged_ptr::set_ptr`, which keeps
+    the 16 tag bits of the word: pointer unknown, tag as the deque left it. -/
+def freeWordOk (fx : Bool) (cur lk : Link) : Prop := fx = true → lk.tag = cur.tag
+
+instance (fx : Bool) (cur lk : Link) : Decidable (freeWordOk fx cur lk) := by
+  unfold freeWordOk; exact inferInstance
+
+/-- The acceptor, parametrised by the tagging discipline (`newTag`, `freeWordOk`).
+    `step = stepG false` is the pinned tree, `stepF = stepG true` the repaired code. -/
+def stepG (fx : Bool) (s : St) : Ev → Option St
   | .inv t push d v =>
     if t < s.n ∧ s.pc t = .idle then
       some { s with pc := upd s.pc t (if push then .pushAlloc d v else .popLd d) }
@@ -148,7 +168,9 @@ def step (s : St) : Ev → Option St
     if t < s.n ∧ n ≠ 0 ∧ s.used n = false then
       match s.pc t with
       | .pushAlloc d v =>
-        some { s with nodes := upd s.nodes n ⟨⟨0, 0⟩, ⟨0, 0⟩, v⟩, used := upd s.used n true,
+        some { s with nodes := upd s.nodes n ⟨⟨0, newTag fx (s.nodes n).left⟩,
+                                               ⟨0, newTag fx (s.nodes n).right⟩, v⟩,
+                      used := upd s.used n true,
                       pc := upd s.pc t (.pushLd d n) }
       | _ => none
     else none
@@ -187,16 +209,19 @@ def step (s : St) : Ev → Option St
     if t < s.n then
       match s.pc t with
       | .popRd d a =>
-        if unknownLeft s d (a.endp d) = true ∨ lk = inward d (s.nodes (a.endp d)) then
+        if (unknownLeft s d (a.endp d) = true ∧ freeWordOk fx (inward d (s.nodes (a.endp d))) lk) ∨
+            lk = inward d (s.nodes (a.endp d)) then
           some { s with pc := upd s.pc t (.popCas d a lk) }
         else none
       | .stRd1 k d a =>
-        if unknownLeft s d (a.endp d) = true ∨ lk = inward d (s.nodes (a.endp d)) then
+        if (unknownLeft s d (a.endp d) = true ∧ freeWordOk fx (inward d (s.nodes (a.endp d))) lk) ∨
+            lk = inward d (s.nodes (a.endp d)) then
           some { s with pc := upd s.pc t (.stChk1 k d a lk) }
         else none
       | .stRd2 k d a prev =>
         -- `prev.get_ptr()->...` : a null `prev` would be a crash, not an event
-        if prev.ptr ≠ 0 ∧ (unknownLeft s (!d) prev.ptr = true ∨ lk = outward d (s.nodes prev.ptr)) then
+        if prev.ptr ≠ 0 ∧ ((unknownLeft s (!d) prev.ptr = true ∧
+              freeWordOk fx (outward d (s.nodes prev.ptr)) lk) ∨ lk = outward d (s.nodes prev.ptr)) then
           some { s with pc := upd s.pc t (if lk.ptr ≠ a.endp d then .stChk2 k d a prev lk
                                           else .stCas k d a) }
         else none
@@ -207,7 +232,8 @@ def step (s : St) : Ev → Option St
       match s.pc t with
       | .pushLink d m a =>
         if n = m ∧ tgt = a.endp d then
-          some { s with nodes := upd s.nodes m (setInward d (s.nodes m) ⟨a.endp d, 0⟩),
+          some { s with nodes := upd s.nodes m (setInward d (s.nodes m)
+                                  ⟨a.endp d, newTag fx (inward d (s.nodes m))⟩),
                         pc := upd s.pc t (.pushCas d m a) }
         else none
       | _ => none
@@ -216,7 +242,11 @@ def step (s : St) : Ev → Option St
     if t < s.n then
       match s.pc t with
       | .stLink k d a prev pn =>
-        if unknownLeft s (!d) prev.ptr = true ∨ ok = decide (outward d (s.nodes prev.ptr) = pn) then
+        -- a CAS on the `left` word of a free node: outcome unknown in the pinned tree's model; in
+        -- the repaired model it can only succeed if the tag bits (kept by the freelist) match
+        if (unknownLeft s (!d) prev.ptr = true ∧
+              (fx = true → ok = true → (outward d (s.nodes prev.ptr)).tag = pn.tag)) ∨
+            ok = decide (outward d (s.nodes prev.ptr) = pn) then
           if ok then
             some { s with
               nodes := upd s.nodes prev.ptr (setOutward d (s.nodes prev.ptr) ⟨a.endp d, pn.tag + 1⟩),
@@ -292,6 +322,11 @@ def step (s : St) : Ev → Option St
     else none
   | .done t =>
     if t < s.n ∧ s.pc t = .idle then some { s with pc := upd s.pc t .fin } else none
+
+/-- the pinned tree (link tags restart at 0 in every life of a node) -/
+@[reducible] def step : St → Ev → Option St := stepG false
+/-- the repaired code (link tags survive recycling) -/
+@[reducible] def stepF : St → Ev → Option St := stepG true
 
 /-- values stored in the chain, left to right -/
 def contents (s : St) : List Nat := s.chain.map (fun n => (s.nodes n).data)
